@@ -192,6 +192,15 @@ def run(ctx):
     bads = [("1-D", np.array([0, 1, 1])), ("3-D", np.zeros((2, 2, 2))), ("entries 0,1,2", np.array([[0, 1], [2, 0]])),
             ("entries 0,.5,1", np.array([[1, .5, 0], [0, 1, 1]])), ("all zeros", np.zeros((2, 2))), ("all ones", np.ones((2, 3))),
             ("negative", np.array([[0, -1], [1, 1]]))]
+    # entries that are almost but not exactly 0 or 1 (each in a matrix that would otherwise admit a swap)
+    for dt_, vals_ in ((np.float64, [np.nextafter(1.0, 0.0), np.nextafter(1.0, 2.0), 5e-324, 1e-300, 1e-17, 1 - 1e-12, float("nan"), float("inf"), 2.0 ** 53]),
+                       (np.float32, [np.nextafter(np.float32(1), np.float32(0)), np.nextafter(np.float32(1), np.float32(2)), np.float32(1e-45), np.float32(1e-8)]),
+                       (np.float16, [np.nextafter(np.float16(1), np.float16(0)), np.nextafter(np.float16(1), np.float16(2)), np.float16(6e-8)])):
+        for v_ in vals_:
+            base_ = [[1, 0, 1], [0, 1, 0], [1, 1, 0]]
+            i_, j_ = ctx.rng.randrange(3), ctx.rng.randrange(3)
+            b_ = np.array(base_, dtype=dt_); b_[i_, j_] = v_
+            bads.append((f"{np.dtype(dt_).name} entry {float(v_)!r} at ({i_},{j_})", b_))
     for name, b in bads:
         r = guarded(utils.permute_incidence_fixed_sums, b, 1, 5)
         ctx.case(("reject", name), True); ctx.count("rejected-inputs")
